@@ -8,6 +8,8 @@ INVARIANT SymmetryConsistent
 INVARIANT OrbitClosure
 INVARIANT CopiesRotatedIntoPlace
 INVARIANT UniqueNames
+INVARIANT ZonesFollowSources
+INVARIANT EditsAreTemporary
 INVARIANT LookupsTruthful
 INVARIANT TimesThree
 INVARIANT BaseConstant
